@@ -126,7 +126,7 @@ def shard(sh: Shard, seed, lo, hi):
 
 
 def add(run, tier, seed):
-    per = 5 if tier == "quick" else 50
+    per = 8 if tier == "quick" else 200
     jobs = [{"seed": seed, "lo": i * per, "hi": (i + 1) * per} for i in range(NCPU)]
     run.absorb(run_shards("checks.c05_threaded", "shard", jobs, timeout=3000))
     run.need(run.counters.get("threaded_points_matched", 0) > 200, "threaded client: too few comparison points")
